@@ -234,6 +234,11 @@ macro_rules! vnote {
     };
 }
 
+/// stub for alloc::fmt::format under Kani: error-message text is never the subject of a check
+pub fn fmt_stub(_args: std::fmt::Arguments<'_>) -> String {
+    String::new()
+}
+
 // ------------------------------------------------------------------ machine state
 #[derive(Clone, Copy, PartialEq, Eq, Debug)]
 pub struct Regs {
